@@ -66,8 +66,9 @@ let show_dump (nslab : nat) (s : state) (t : int) : string =
         (String.concat "," (List.map ref_s ob.o_mem))
         (int_of_nat ob.o_births) (int_of_nat ob.o_deaths))) s.s_heap;
   Buffer.add_string b (Printf.sprintf "#%d " !dead);
-  let th = List.nth s.s_thr t in
-  Buffer.add_string b (Printf.sprintf "(%s) " (String.concat "," (List.map ref_s th.t_stk)));
+  ignore t;
+  List.iter (fun th -> Buffer.add_string b (Printf.sprintf "(%s)" (String.concat "," (List.map ref_s th.t_stk)))) s.s_thr;
+  Buffer.add_string b " ";
   let p = s.s_pool in
   Buffer.add_string b (Printf.sprintf "%d/%d/%d{" (int_of_nat p.p_cur) (int_of_nat p.p_max) (int_of_nat p.p_nextid));
   List.iter (fun sl ->
@@ -104,6 +105,79 @@ let run_single k hdr body =
     if !anybad then Printf.printf "%d ORACLE FAIL model reaches a lifetime violation (EvBad) on this history\n" k
   | _ -> failwith "bad header"
 
+(* ---- scheduled multi-threaded histories: the model makes the same decisions as harness/sched
+   (explicit schedule with non-enabled entries skipped, then non-preemptive) and prints, per decision,
+   the worker resumed and the atomic step it executed *)
+let tag_of (e : event) : string =
+  match e with
+  | EvInc o -> "I" ^ string_of_int (int_of_nat o)
+  | EvDec (o, _) -> "D" ^ string_of_int (int_of_nat o)
+  | EvObtained (_, _) | EvRecycled (_, _) | EvDrained _ -> "L"
+  | EvBad w -> "BAD" ^ string_of_int (int_of_nat w)
+  | _ -> "?"
+
+let run_sched_case k hdr body =
+  match String.split_on_char ':' (String.sub hdr 1 (String.length hdr - 1)) with
+  | n :: mx :: st :: rest ->
+    let nslab = n_ n in
+    let sched = match rest with
+      | [sc] when sc <> "" -> List.map int_of_string (String.split_on_char '.' sc)
+      | _ -> [] in
+    let progs = String.split_on_char '/' body in
+    let progs = if List.length progs < 2 then progs @ [""; ""] else progs in
+    let ops_of p = List.map parse_op (List.filter (fun x -> x <> "") (String.split_on_char ';' p)) in
+    let setup = ops_of (List.nth progs 0) and teardown = ops_of (List.nth progs 1) in
+    let workers = List.map ops_of (List.filteri (fun i _ -> i >= 2) progs) in
+    let nw = List.length workers in
+    let anybad = ref false in
+    let s = ref (init_state (n_ mx) (n_ st) [setup @ teardown]) in
+    let run_main_ops cnt =
+      for _ = 1 to cnt do
+        let (s1, ev0) = step nslab kmem !s O in
+        let ((s2, evs), okf) = run_op nslab kmem fuel s1 O [] in
+        s := s2;
+        if not okf || List.exists ev_is_bad (ev0 :: evs) then anybad := true
+      done in
+    run_main_ops (List.length setup);
+    s := fork_state !s workers;
+    let b = Buffer.create 1024 in
+    let enabled w = not (thread_done !s (nat_of_int (w+1))) in
+    let rec pick sched cur =
+      let en = List.filter enabled (List.init nw (fun i -> i)) in
+      if en = [] then None else
+      match sched with
+      | c :: r -> if c >= 0 && c < nw && enabled c then Some (c, r) else pick r cur
+      | [] -> if cur >= 0 && enabled cur then Some (cur, []) else Some (List.hd en, []) in
+    let rec loop sched cur guard =
+      if guard = 0 then anybad := true else
+      match pick sched cur with
+      | None -> ()
+      | Some (w, r) ->
+        let t = nat_of_int (w+1) in
+        let tag =
+          if next_silent !s t then "-"
+          else begin
+            let (s1, ev) = step nslab kmem !s t in
+            s := s1;
+            if ev_is_bad ev then anybad := true;
+            tag_of ev
+          end in
+        let g = ref 10000 in
+        while next_silent !s t && !g > 0 do
+          let (s1, ev) = step nslab kmem !s t in
+          s := s1; decr g;
+          if ev_is_bad ev then anybad := true
+        done;
+        Buffer.add_string b (Printf.sprintf "%d:%s " w tag);
+        loop r w (guard - 1) in
+    if nw > 0 then loop sched (-1) 20000;
+    run_main_ops (List.length teardown);
+    Buffer.add_string b "| ";
+    Buffer.add_string b (show_dump nslab !s 0);
+    Printf.printf "%d %s\n" k (Buffer.contents b);
+    if !anybad then Printf.printf "%d ORACLE FAIL model reaches a lifetime violation (EvBad) or does not terminate on this schedule\n" k
+  | _ -> failwith "bad header"
+
 let () =
   let lines = Ocommon.read_lines () in
   List.iteri (fun k line ->
@@ -113,5 +187,6 @@ let () =
       let hdr = String.sub line 0 p in
       let body = String.sub line (p+1) (String.length line - p - 1) in
       if String.length hdr > 0 && hdr.[0] = 'M' then Printf.printf "%d stress ok\n" k
+      else if String.length hdr > 0 && hdr.[0] = 'S' then run_sched_case k hdr body
       else run_single k hdr body
   ) lines
